@@ -1,7 +1,7 @@
 (* Dispatcher for C04: tilt bookkeeping on exact rationals.
    op 1  Field.shift of a tilt list (+ np.fix / sub-pixel split of the result)
    op 2  Plane.fit_tilt history: fit, then (add an OPD increment, fit)*
-   op 3  tilt lists and shifts of the fields of a plane chain (Wavefront(tilt=) * planes ...),
+   op 3  tilt lists and shifts of the fields of several plane chains (Wavefront(tilt=) * planes ...),
          planes carrying either an explicit .tilt list or the result of a fit history
    op 4  the OPD ramp standing for Tilt(x=a, y=b) on an m x n plane *)
 From LV Require Import Extract.FieldCodec Model.Tilt.
@@ -13,6 +13,13 @@ Definition parrq : parser (arr QS) :=
   l <- prep (Z.to_nat (n * m)) pQ ;; pret (of_list (S := QS) n m l).
 Definition earrq (a : arr QS) : list Z := nr a :: nc a :: flat_map eQ (tabulate a).
 
+(* tilt elements by constructor arguments: 0 = Tilt(x, y), 1 = DispersiveTilt([t0, t1], [d0, d1]) with the
+   value of sqrt(1 + t0^2) supplied *)
+Definition ptilt_ctor : parser tilt :=
+  t <- pZ ;;
+  if t =? 0 then (x <- pQ ;; y <- pQ ;; pret (mk_tilt x y))
+  else if t =? 1 then (a <- pQ ;; b <- pQ ;; c <- pQ ;; d <- pQ ;; s <- pQ ;; pret (TiltDisp a b c d s))
+  else pfail.
 Definition pps : parser (option (Qc * Qc)) := popt (ppair pQ pQ).
 Definition pix : parser indexing :=
   t <- pZ ;; pret (if t =? 0 then IJ else if t =? 1 then XY else BadIndexing).
@@ -31,7 +38,7 @@ Definition eqplane (p : qplane) : list Z :=
    2 = plane whose tilt list results from a fit history *)
 Definition pcelem : parser (result celem) :=
   t <- pZ ;;
-  if t =? 0 then (x <- ptilt ;; pret (Ok (CTilt x)))
+  if t =? 0 then (x <- ptilt_ctor ;; pret (Ok (CTilt x)))
   else if t =? 1 then (size <- pnat ;; tl <- plist ptilt ;; pret (Ok (CPlane size tl)))
   else if t =? 2 then (p <- pqplane ;; ds <- plist parrq ;;
                        pret (rbind (fit_history p ds) (fun q => Ok (CPlane (length (qp_masks q)) (qp_tilt q)))))
@@ -50,23 +57,24 @@ Fixpoint rmap {A B} (f : A -> result B) (l : list A) : result (list B) :=
 Definition run (inp : list Z) : list Z :=
   match inp with
   | 1 :: rest =>
-    match pall (tl <- plist ptilt ;; z <- pQ ;; wl <- pQ ;; ps <- pps ;; os <- pQ ;; ix <- pix ;;
+    match pall (tl <- plist ptilt_ctor ;; z <- pQ ;; wl <- pQ ;; ps <- pps ;; os <- pQ ;; ix <- pix ;;
                 pret (tl, z, wl, ps, os, ix)) rest with
-    | Some (tl, z, wl, ps, os, ix) => eresult eshift (field_shift tl z wl ps os ix)
+    | Some (tl, z, wl, ps, os, ix) => eresult (fun s => elist etilt tl ++ eshift s) (field_shift tl z wl ps os ix)
     | None => emalformed end
   | 2 :: rest =>
     match pall (ppair pqplane (plist parrq)) rest with
     | Some (p, ds) => eresult eqplane (fit_history p ds)
     | None => emalformed end
   | 3 :: rest =>
-    match pall (w <- popt (plist pQ) ;; es <- plist pcelem ;; z <- pQ ;; wl <- pQ ;; ps <- pps ;; os <- pQ ;;
-                pret (w, es, z, wl, ps, os)) rest with
-    | Some (w, es, z, wl, ps, os) =>
-        eresult (elist (fun x => x))
-          (rbind (wavefront_tilt w) (fun w0 =>
-           rbind (rseq es) (fun es' =>
-           rmap (fun tl => rbind (field_shift tl z wl ps os IJ) (fun s => Ok (elist etilt tl ++ eshift s)))
-                (chain_tilts w0 es'))))
+    match pall (z <- pQ ;; wl <- pQ ;; ps <- pps ;; os <- pQ ;;
+                cs <- plist (ppair (popt (plist pQ)) (plist pcelem)) ;; pret (z, wl, ps, os, cs)) rest with
+    | Some (z, wl, ps, os, cs) =>
+        0 :: elist (fun c : option (list Qc) * list (result celem) =>
+          eresult (elist (fun x => x))
+            (rbind (wavefront_tilt (fst c)) (fun w0 =>
+             rbind (rseq (snd c)) (fun es' =>
+             rmap (fun tl => rbind (field_shift tl z wl ps os IJ) (fun s => Ok (elist etilt tl ++ eshift s)))
+                  (chain_tilts w0 es'))))) cs
     | None => emalformed end
   | 4 :: rest =>
     match pall (a <- pQ ;; b <- pQ ;; dxr <- pQ ;; dxc <- pQ ;; m <- pZ ;; n <- pZ ;; pret (a, b, dxr, dxc, m, n)) rest with
